@@ -105,8 +105,27 @@ def coq_files():
     return sorted(out)
 
 
+def _vo_deps():
+    """target .vo -> set of .vo it depends on, from coq_makefile's dependency file."""
+    deps = {}
+    path = os.path.join(COQ, ".Makefile.d")
+    if not os.path.exists(path):
+        return deps
+    for line in open(path).read().replace("\\\n", " ").split("\n"):
+        if ":" not in line:
+            continue
+        lhs, rhs = line.split(":", 1)
+        tgts = [t for t in lhs.split() if t.endswith(".vo")]
+        ds = set(d for d in rhs.split() if d.endswith(".vo"))
+        for t in tgts:
+            deps.setdefault(t, set()).update(ds)
+    return deps
+
+
 def build_coq():
-    """Full .vo build through coq_makefile. Returns (ok, log)."""
+    """Full .vo build through coq_makefile (make -k: a broken file does not stop unrelated ones).
+    Compiled files of every target that failed, and of everything depending on it, are removed so that
+    no stale .vo can make a later coqc succeed. Returns (all ok, log, set of failed targets)."""
     with Lock("coq"):
         files = coq_files()
         mk = os.path.join(COQ, "Makefile")
@@ -116,7 +135,26 @@ def build_coq():
             run(["coq_makefile", "-f", "_CoqProject", "-o", "Makefile"] + files, cwd=COQ)
             open(stamp, "w").write(listing)
         p = run(["timeout", "1500", "make", "-j%d" % NPROC, "-k"], cwd=COQ, check=False, timeout=1600)
-        return p.returncode == 0, p.stdout
+        failed = set()
+        if p.returncode != 0:
+            failed = set(re.findall(r"\*\*\* \[[^\]]*?:\s*(\S+\.vo)\] Error", p.stdout))
+            deps = _vo_deps()
+            # transitive dependents
+            changed = True
+            while changed:
+                changed = False
+                for t, ds in deps.items():
+                    if t not in failed and ds & failed:
+                        failed.add(t)
+                        changed = True
+            for t in failed:
+                for ext in (".vo", ".vok", ".vos", ".glob"):
+                    fp = os.path.join(COQ, t[:-3] + ext)
+                    if os.path.exists(fp):
+                        os.remove(fp)
+            if not failed:
+                failed.add("<unknown>")
+        return p.returncode == 0, p.stdout, failed
 
 
 def scan_forbidden():
@@ -358,12 +396,17 @@ def check(pid, tier, seed):
 
     # 1-2: constants, proofs
     facts = source_facts()
-    coq_ok, coq_log = build_coq()
+    coq_all_ok, coq_log, coq_failed = build_coq()
     forbidden = scan_forbidden()
     props = check_props_file(pid)
-    proof_ok = coq_ok and props["ok"] and not forbidden
-    if not coq_ok:
-        log("Coq build failed:\n" + coq_log[-3000:])
+    # The property's own theorem file must compile against freshly built dependencies (stale .vo files of
+    # failed targets and of their dependents were removed by build_coq); unrelated broken files do not count.
+    coq_ok = props["ok"] or ("theories/props/%s.vo" % pid) not in coq_failed and "<unknown>" not in coq_failed
+    proof_ok = props["ok"] and not forbidden
+    if not coq_all_ok:
+        log("Coq build: failed targets %s" % sorted(coq_failed))
+    if not props["ok"] and not coq_all_ok:
+        log("Coq build log:\n" + coq_log[-3000:])
     if forbidden:
         log("forbidden constructs: %s" % forbidden)
     if not props["ok"]:
@@ -495,7 +538,7 @@ def check(pid, tier, seed):
         violations = 1
 
     n_theorems = len(props["theorems"])
-    discharged = sum(1 for t in props["theorems"] if set(t["assumptions"]) <= ALLOWED_AXIOMS) if props["ok"] and coq_ok else 0
+    discharged = sum(1 for t in props["theorems"] if set(t["assumptions"]) <= ALLOWED_AXIOMS) if props["ok"] else 0
     samples = []
     for s in scripts[len(corpus):len(corpus) + 3]:
         samples.append({"ops": [o if len(o) < 300 else o[:300] + "..." for o in s["ops"][:40]], "meta": s.get("meta")})
@@ -555,7 +598,7 @@ def replay(path):
 
 def setup():
     source_facts()
-    ok, lg = build_coq()
+    ok, lg, _failed = build_coq()
     if not ok:
         print(lg[-5000:])
         raise Infra("Coq build failed")
